@@ -29,7 +29,8 @@ import (
 	"verifharness/stx"
 )
 
-var cfgInstances = []string{"", "a", "ab", "a/b", "a/b/c", "b", "a-", "a-/b"}
+var cfgInstances = []string{"", "a", "ab", "a/b", "a/b/c", "b", "a-", "a-/b",
+	strings.Repeat("z", 220) + "/a", strings.Repeat("z", 220) + "/b", strings.Repeat("z", 220)}
 
 func localConfiguration(hierarchical bool) *pb.BlobAccessConfiguration {
 	return &pb.BlobAccessConfiguration{
